@@ -14,13 +14,22 @@ import (
 func init() {
 	register("C31", "Clauses decided (gates of the two-slot reload; the interleaving statement itself is not decided): (a) a commit without a pending prepare fails: every nil-error return of Manager.ReloadNamespaceCommit, and its switch of the active slot, are dominated by reloadPrepared.CompareAndSwap(true,false)==true; (b) a prepare always parks a configuration built from the configuration it was given: every nil-error return of ReloadNamespacePrepare is dominated by the nil-error edge of RebuildNamespace(<its parameter>), and passes the stores into namespaces[other]/users[other] and reloadPrepared.Set(true); (c) the active slot changes only in commit and delete (who-may-write on switchIndex); (d) whoever overwrites the inactive slot without being the prepare itself invalidates a pending prepare (reloadPrepared.Set(false)) before returning — otherwise a later commit switches to a slot that no longer holds what was prepared. Sessions observing one complete generation and all other interleavings are not covered.",
 		ruleC31)
+	// the prepare/commit gates are also what C32 needs from each proxy ("every registered proxy runs the new configuration")
+	register("C32", "", ruleC31gatesOnly)
 	register("C37", "Clauses decided (structure of the idle timer; tick/round arithmetic is not decided): (a) the wheel's state (buckets, bucketIndexes, currentIndex) is touched only by functions that run on the wheel goroutine (callers frozen; Add/Remove/Stop only send on the pipeline); (b) re-registration replaces: in (*TimeWheel).add an existing key is deleted from its old bucket before it is stored again, so an older registration cannot fire after activity was recorded; (c) remove deletes the key from both maps; (d) fire once, then forget: in handleTick a callback is started only on the round==0 path and every path that starts it deletes the key from the bucket and the index; (e) every command records activity: in Session.Run every path from a successful read to execCommand passes tw.Add, and the deferred exit handler removes the session from the timer. 'No earlier than the timeout / no later than one tick' and the 4096-slot pipeline dropping refreshes under load are not covered.",
 		ruleC37)
 }
 
-func ruleC31(c *Ctx, r *Report) {
+func ruleC31(c *Ctx, r *Report)          { ruleC31impl(c, r, true) }
+func ruleC31gatesOnly(c *Ctx, r *Report) { ruleC31impl(c, r, false) }
+
+func ruleC31impl(c *Ctx, r *Report, slots bool) {
 	const rule = "MP-C31"
-	r.floor(rule, 7)
+	if slots {
+		r.floor(rule, 7)
+	} else {
+		r.floor(rule, 5)
+	}
 	prep := c.Method(serverRel, "Manager", "ReloadNamespacePrepare")
 	commit := c.Method(serverRel, "Manager", "ReloadNamespaceCommit")
 	preparedF := c.Field(serverRel, "Manager", "reloadPrepared")
@@ -150,6 +159,9 @@ func ruleC31(c *Ctx, r *Report) {
 	if k == 0 {
 		r.undecided(rule, pn, "prepare-success", c.Pos(prep.Pos()), "no success return")
 	}
+	if !slots {
+		return
+	}
 	// (c) writers of switchIndex, (d) writers of the slots
 	del := c.Method(serverRel, "Manager", "DeleteNamespace")
 	allowedSwitch := map[*ssa.Function]string{commit: "commit", del: "delete"}
@@ -193,7 +205,15 @@ func ruleC31(c *Ctx, r *Report) {
 			}
 			return true
 		}})
-		if len(exits) == 0 {
+		resetBefore := false
+		for _, ci := range callsIn(fn, func(cc *ssa.CallCommon) bool { return onField(cc, preparedF, "Set") }) {
+			if b, ok := constBool(callCommon(ci).Args[1]); ok && !b && instrDominates(ci, first) {
+				resetBefore = true
+			}
+		}
+		if resetBefore {
+			r.ok(rule, name, "slot-overwrite-invalidates-prepare", c.Pos(first.Pos()), "the prepared flag is reset before the inactive slot is overwritten")
+		} else if len(exits) == 0 {
 			r.ok(rule, name, "slot-overwrite-invalidates-prepare", c.Pos(first.Pos()), "after overwriting the inactive slot the prepared flag is reset on every path")
 		} else {
 			r.viol(rule, name, "slot-overwrite-invalidates-prepare", c.Pos(first.Pos()), "the inactive slot is overwritten while a prepare may be pending and the prepared flag is left set: prepare(A); "+fn.Name()+"(B); commit(A) switches to a slot that does not hold A's prepared configuration (B's change is undone, A's is lost)", c.pathStrings(exits[0])...)
